@@ -75,6 +75,7 @@ type FeedCase struct {
 	BadCp   string `json:"bad_cp"`   // "" | wrongkey | wrongorigin | garbage
 	Storage string `json:"storage"`  // real witness storage
 	WStale  bool   `json:"w_stale"`  // (stub) witness's reported checkpoint is on the other branch than the log's
+	Shape   string `json:"shape,omitempty"` // published checkpoint: "" plain | ext (extension lines) | lz (leading zeros in the size) | extrasig (an unknown extra signature line)
 }
 
 const feedOrigin = "example.com/log"
@@ -113,6 +114,24 @@ func cpBytes(key *vlib.Key, br *vlib.Branch, size int) []byte {
 	root := br.Root(uint64(size))
 	text := vlib.CheckpointText(feedOrigin, uint64(size), root[:], nil)
 	return vlib.Note(text, key.SigLine(text))
+}
+
+// shapedCp is a valid log-signed checkpoint in one of the shapes a log may legally publish.
+func shapedCp(key *vlib.Key, br *vlib.Branch, size int, shape string) []byte {
+	root := br.Root(uint64(size))
+	var ext []string
+	if shape == "ext" {
+		ext = []string{"Timestamp: 1700000000", "another extension line"}
+	}
+	text := vlib.CheckpointText(feedOrigin, uint64(size), root[:], ext)
+	if shape == "lz" {
+		text = strings.Replace(text, "\n", "\n0", 1) // "<origin>\n0<size>\n..."
+	}
+	lines := []string{key.SigLine(text)}
+	if shape == "extrasig" {
+		lines = append(lines, vlib.NewKey("someone-else", "someone-else").SigLine(text))
+	}
+	return vlib.Note(text, lines...)
 }
 
 func (s *stubWitness) latestFor(attempt int) []byte {
@@ -215,7 +234,7 @@ func runFeedStub(c *FeedCase) (bool, []string, error) {
 	var published []byte
 	switch c.BadCp {
 	case "":
-		published = cpBytes(key, logBr, c.N)
+		published = shapedCp(key, logBr, c.N, c.Shape)
 	case "wrongkey":
 		published = cpBytes(vlib.NewKey("logkey", "stranger"), logBr, c.N)
 	case "wrongorigin":
@@ -438,7 +457,7 @@ func runFeedReal(c *FeedCase) (bool, []string, error) {
 	if c.Fork {
 		logBr = forked
 	}
-	published := cpBytes(key, logBr, c.N)
+	published := shapedCp(key, logBr, c.N, c.Shape)
 	opts := feeder.FeedOpts{
 		LogID: id, LogOrigin: feedOrigin, LogSigVerifier: key.Verifier(), Witness: witnessAdapter{w: w},
 		FetchCheckpoint: func(ctx context.Context) ([]byte, error) { return published, nil },
@@ -623,7 +642,7 @@ func TestC13Sizes(t *testing.T) {
 	for w := -1; w <= max; w++ {
 		for n := 0; n <= max; n++ {
 			for _, stale := range []bool{false, true} {
-				c := &FeedCase{W: []int{w}, N: n, WStale: stale, ForkAt: 2}
+				c := &FeedCase{W: []int{w}, N: n, WStale: stale, ForkAt: 2, Shape: []string{"", "ext", "lz", "extrasig"}[(w+n+2)%4]}
 				if stale && w <= 2 {
 					continue
 				}
@@ -654,6 +673,7 @@ func TestC13Real(t *testing.T) {
 			c := &FeedCase{Real: true, Storage: rapid.SampledFrom([]string{"mem", "sql"}).Draw(rt, "storage")}
 			c.W = []int{rapid.IntRange(-1, 40).Draw(rt, "w")}
 			c.N = rapid.IntRange(0, 60).Draw(rt, "n")
+			c.Shape = rapid.SampledFrom([]string{"", "", "ext", "lz", "extrasig"}).Draw(rt, "shape")
 			c.Fork = vlib.Pct(rt, 35, "fork")
 			c.ForkAt = rapid.IntRange(0, 40).Draw(rt, "forkat")
 			cases = append(cases, c)
